@@ -24,7 +24,8 @@ model.
 def tauSteps (s : St) : List St :=
   -- a polling scan can run at any time, also while a transition works with the
   -- lock released
-  [if s.broken then tickFail s else tick s] ++ (transApply s).toList
+  -- … and the strobe it decides on is issued and delivered a little later
+  [if s.broken then tickFail s else tick s] ++ (transApply s).toList ++ (if s.owed then [deliver s] else [])
 
 def insertNew (acc : List St) (s : St) : List St × Bool :=
   if acc.contains s then (acc, false) else (s :: acc, true)
@@ -68,7 +69,8 @@ def step (cur : List St) (tok : String) : Option (List St) :=
       | none => none))
   | ['Q', '1'] => some (closeSet (cur.filterMap pollReturn))
   | ['Q', '0'] => some (closeSet (cur.filter fun s => !s.pending))
-  | ['W'] => some (closeSet (cur.map fun s => if s.broken then tickFail s else tick s))
+  -- a wait: at least one complete polling iteration (scan, then its strobe delivered)
+  | ['W'] => some (closeSet (cur.map fun s => deliver (if s.broken then tickFail s else tick s)))
   | ['B', '1'] => some (closeSet (cur.map fun s => { s with broken := true }))
   | ['B', '0'] => some (closeSet (cur.map fun s => { s with broken := false }))
   | _ => none
